@@ -214,7 +214,13 @@ def deep_case(rng):
                                   repr(round(ey, 4)), repr(round(cx - sx, 4)),
                                   repr(round(cy - sy, 4)))
     case = {"region": region, "sx": round(sx, 4), "sy": round(sy, 4), "cmd": cmd,
-            "units": rng.choice(["mm", "mm", "mm", "inch", "stale", "m206"])}
+            "units": rng.choice(["mm", "mm", "mm", "inch", "stale", "m206", "chain_in2mm",
+                                 "chain_mm2in"])}
+
+    def near(x, y, margin=0.5):
+        return x1 - margin <= x <= x1 + w + margin and y1 - margin <= y <= y1 + h + margin
+    if case["units"].startswith("chain") and near(sx, sy):
+        case["units"] = "mm"
     if almost and rng.random() < 0.5:
         # the usual way to command a full circle: centre offsets only, no X / Y word at all
         case["units"] = "mm"
@@ -239,7 +245,7 @@ def observe_deep(case):
         rig = FilterRig({})
         units = case.get("units", "mm")
         region = dict(case["region"])
-        if units == "inch":
+        if units in ("inch", "chain_mm2in"):
             # the same numbers read as inches: the region (registered in mm) is scaled
             for key in ("x1", "y1", "x2", "y2"):
                 region[key] = region[key] * 25.4
@@ -254,7 +260,19 @@ def observe_deep(case):
             rig.gcode("G28")
         elif units == "m206":
             rig.gcode("M206 X%s Y%s" % (repr(case["home"][0]), repr(case["home"][1])))
-        rig.gcode("G1 X%s Y%s" % (repr(case["sx"]), repr(case["sy"])))
+        if units in ("chain_in2mm", "chain_mm2in"):
+            # the start point is reached by a minute arc commanded in the *other* length unit,
+            # the unit is switched, and the arc under test follows without a move in between:
+            # its start is the tracked position read in the unit now in force
+            to_other = (1 / 25.4) if units == "chain_in2mm" else 25.4
+            rig.gcode("G20" if units == "chain_in2mm" else "G21")
+            rig.gcode("G1 X%s Y%s" % (repr((case["sx"] - 0.1) * to_other),
+                                      repr(case["sy"] * to_other)))
+            rig.gcode("G2 X%s Y%s I%s J0" % (repr(case["sx"] * to_other),
+                                             repr(case["sy"] * to_other), repr(0.05 * to_other)))
+            rig.gcode("G21" if units == "chain_in2mm" else "G20")
+        else:
+            rig.gcode("G1 X%s Y%s" % (repr(case["sx"]), repr(case["sy"])))
         result = rig.gcode(case["cmd"])
         event["res"] = result["res"]
         if result["res"] == "exc":
